@@ -38,7 +38,7 @@ FINDINGS += [
 FINDINGS += [
  # ---- C17 (remaining)
  K("C17", "C17 plookup.VerifyLookupTables never uses comt", "plookup VerifyLookupTables computes the folded commitment `comt` and never uses it: an unrelated honest permutation proof / other table rows are accepted (table binding check missing); not repaired here (needs the intended relation between comt and the permutation proof)", r"^C17 plookup \S+ kind=table .*bind=0", r"^1$", r"^0$", "ecc/*/fr/plookup/table.go:195-216", "C17 plookup bn254 kind=table tau=5 n=40 f=1,1,3 t=1,2,3,4 fb=_ tb=_ pa=5,6,7,8 mut=permFresh i=0 m=9 cf=1 perm=1 bind=0 vec=1"),
- K("C17", "C17 fri.VerifyProofOfProximity never compares numLeaves with its domain", "fri verifyProofOfProximitySingleRound takes numLeaves of every Merkle proof from the proof (it only requires the two entries of a step to agree) and never compares it with the verifier's own domain size |domain|/2^i: a proof re-derived consistently for oracles with one extra leaf, twice as many leaves, or fewer leaves (when the queried pair survives) is accepted; with the accumulator's missing leaf/node domain separation a different numLeaves also re-interprets the same root as a tree of another shape. Proposed repair: reject unless Interactions[i][k].numLeaves == domain.Cardinality >> i (same for OpeningProof.numLeaves in VerifyOpening)", r"^C17 fri consist_nl_(?!honest)", r"^accept$", r"^reject$", "ecc/*/fr/fri/fri.go verifyProofOfProximitySingleRound", "C17 fri consist_nl_all_plus1 bn254 8 ... (reproduction: /var/tmp/gv-w/fx17/repro/zz_numleaves_test.go)"),
+ F("C17", 'C17 fri.VerifyProofOfProximity never compares numLeaves with its domain', "b2f6792", "fri verifyProofOfProximitySingleRound takes numLeaves of every Merkle proof from the proof (it only requires the two entries of a step to agree) and never compares it with the verifier's own domain size |domain|/2^i: a proof re-derived consistently for oracles with one extra leaf, twice as many leaves, or fewer leaves (when the queried pair survives) is accepted; with the accumulator's missing leaf/node domain separation a different numLeaves also re-interprets the same root as a tree of another shape. Proposed repair: reject unless Interactions[i][k].numLeaves == domain.Cardinality >> i (same for OpeningProof.numLeaves in VerifyOpening)", "C17 fri consist_nl_all_plus1 bn254 8 ...   (Go accept before the repair; model reject: theorem C17b_friSpec_iff)", "ecc/*/fr/fri/fri.go verifyProofOfProximitySingleRound, VerifyOpening"),
  F('C17', 'C17 pedersen.BatchVerifyMultiVk empty batch panics', '3e34233', 'pedersen BatchVerifyMultiVk panicked on the empty batch', "", ""),
  F('C17', 'C17 mpcsetup.SameRatioMany with a length-2 slice first', '36731cd', "mpcsetup.SameRatioMany panicked or rejected honest input when a group's first slices had length 2", "", ""),
  F('C17', 'C17 shplonk.BatchVerify short claimed-value row panics', 'ee9fcd5', 'shplonk/fflonk BatchVerify panicked on a claimed-value row shorter than its point set', "", ""),
